@@ -195,9 +195,10 @@ Lemma regenerated_rules_are_documented :
                    SReturn (EMeth (ESelfAttr "tree_") "predict" [ECall "check_array" [EVar "X"; EKw "dtype" (EGlobal "np.float64")]])] /\
   kauri_score = [SReturn (ECall "gemini_objective" [ESelfCall "predict" [EVar "X"]; ESelfCall "_compute_kernel" [EVar "X"; EVar "y"]])] /\
   kauri_fit_tail = [SSetAttr "labels_" (EArgmax (EMatMul (EVar "Y") (EVar "Z")) 0%Z); SSetAttr "leaves_" (EArgmax (EVar "Z") 0%Z); SReturn ESelf] /\
-  overrides = [("DiscriminativeModel", ["fit"; "fit_predict"; "predict_proba"; "predict"; "score"]); ("LinearModel", []); ("LinearMMD", []);
-               ("LinearWasserstein", []); ("RIM", []); ("KernelRIM", ["fit"; "predict_proba"]); ("MLPModel", []); ("MLPMMD", []);
-               ("MLPWasserstein", []); ("SparseLinearModel", ["fit"]); ("SparseLinearMMD", []); ("SparseLinearMI", []);
-               ("SparseMLPModel", ["fit"]); ("SparseMLPMMD", []); ("CategoricalModel", []); ("CategoricalMMD", []);
-               ("CategoricalWasserstein", []); ("Douglas", []); ("Tree", ["predict"]); ("Kauri", ["fit"; "fit_predict"; "predict"; "score"])].
+  overrides = [("CategoricalMMD", []); ("CategoricalModel", []); ("CategoricalWasserstein", []);
+               ("DiscriminativeModel", ["fit"; "fit_predict"; "predict"; "predict_proba"; "score"]); ("Douglas", []);
+               ("Kauri", ["fit"; "fit_predict"; "predict"; "score"]); ("KernelRIM", ["fit"; "predict_proba"]); ("LinearMMD", []);
+               ("LinearModel", []); ("LinearWasserstein", []); ("MLPMMD", []); ("MLPModel", []); ("MLPWasserstein", []); ("RIM", []);
+               ("SparseLinearMI", []); ("SparseLinearMMD", []); ("SparseLinearModel", ["fit"]); ("SparseMLPMMD", []);
+               ("SparseMLPModel", ["fit"]); ("Tree", ["predict"])].
 Proof. repeat split; reflexivity. Qed.
